@@ -14,7 +14,7 @@
    bool is a subclass of int in Python: where the code tests isinstance(value, int) a VBool
    is accepted as 0/1. *)
 From Coq Require Import String Floats.SpecFloat.
-From DS Require Import Base.Prelude Base.Bits Model.Utils.
+From DS Require Import Base.Prelude Base.Bits Model.Utils Model.UtilsF32.
 
 Inductive bitorder :=
 | LsbFirst      (* view = bytes_to_binary(word)[::-1]: index k is bit k of the little-endian word *)
@@ -109,9 +109,11 @@ Definition f64_of_Z (z : Z) : option Z :=
   | f => fits 64 (encode 52 11 f)
   end.
 
-(* struct.pack('!f', x) for a double given by its bits: (float)x, OverflowError when a finite
+(* SpecFloat rendering of the same two casts (kept as an independent second model: the
+   correspondence suite compares both with struct.pack / struct.unpack on every run).
+   struct.pack('!f', x) for a double given by its bits: (float)x, OverflowError when a finite
    double becomes infinite; NaN: sign kept, quiet bit set, top 22 payload bits kept (cvtsd2ss) *)
-Definition f32_of_f64 (x : Z) : option Z :=
+Definition f32_of_f64_spec (x : Z) : option Z :=
   match decode 52 11 x with
   | DZero s => fits 32 (sbit 23 8 s)
   | DInf s => fits 32 (sbit 23 8 s + 255 * 2 ^ 23)
@@ -124,13 +126,21 @@ Definition f32_of_f64 (x : Z) : option Z :=
   end.
 
 (* struct.unpack('!f', b) widened to a double (exact; a signalling NaN is quieted: cvtss2sd) *)
-Definition f64_of_f32 (x : Z) : Z :=
+Definition f64_of_f32_spec (x : Z) : Z :=
   match decode 23 8 x with
   | DZero s => sbit 52 11 s
   | DInf s => sbit 52 11 s + 2047 * 2 ^ 52
   | DNan s p => sbit 52 11 s + 2047 * 2 ^ 52 + Z.lor (2 ^ 51) (p * 2 ^ 29)
   | DFin s m e => encode 52 11 (round_to 52 11 s m e)
   end.
+
+(* The conversions the accessors use: the integer model of the C casts of Model/UtilsF32.v (C09),
+   for which Proofs/UtilsF32Proofs.v proves narrow64 (widen32 p) = Some p off the signalling NaNs.
+   [fits 32] keeps the width of the result a checked fact (it never fails on a 64-bit pattern). *)
+Definition f32_of_f64 (x : Z) : option Z :=
+  match narrow64 x with Some s => fits 32 s | None => None end.
+
+Definition f64_of_f32 (x : Z) : Z := widen32 x.
 
 (* ---------- values ---------- *)
 Definition as_int (v : value) : option Z :=
